@@ -18,6 +18,13 @@ import RodbusModel.Lemmas.Lifecycle
   the timeout limit of `s0` are arbitrary.  `Reachable s pos` means `(s, pos) = run s0 script` for
   some such `s0` and some `script : List (List Action)`.  Gate events (`.gate st`) are appended
   to the log by `stop` when the listener callback runs; `states log` extracts them.
+
+  The user alphabet `Action` is {enable, disable, shutdown, dropAll, request id, setDecode lvl};
+  every theorem that quantifies over scripts (`legal_path`, `no_attempt_while_disabled`,
+  `connecting_only_enabled_run`, `shutdown_from_anywhere`, `conservation`, …) quantifies over
+  scripts that may contain `Channel::set_decode_level` at every blocking point.  The peer
+  behaviours include `hsfail` (TLS: the TCP connect succeeds, the handshake fails), a failed
+  attempt exactly like `refuse` (§3, §7); what `set_decode_level` does is §8.
 -/
 namespace Rodbus.C13
 open Rodbus.Life Rodbus.Spec.Life
@@ -103,26 +110,52 @@ theorem connected_only_after_connecting (s0 : S) (h0 : Initial s0) (script : Lis
 
 /-! ## 3. a wait state after every failed connect or lost connection -/
 
-/-- **wait_after_failure (refused connect)**: if the attempt's behaviour is `refuse`, a live
-    handle exists and the queue holds no `Disable` / `Shutdown` (only requests and redundant
-    enables, which are answered / ignored first), the task goes from the `connect` phase straight
-    to the gate `WaitAfterFailedConnect d` where `d` is what the strategy's
-    `after_failed_connect` returned, and the strategy is advanced.  Side condition forced by the
-    model: one unit of fuel per queued command plus one (`stop` supplies `2·len + 8`). -/
-theorem wait_after_refused (s : S) (fuel : Nat) (hq : ∀ c ∈ s.queue, benign c = true)
-    (hh : s.handles = true) (hc : s.cur = .refuse) (hf : s.queue.length + 1 ≤ fuel) :
+/-- **wait_after_failure (failed attempt)**: if the attempt fails — the connect is refused, or
+    (TLS) the TCP connect succeeds and the handshake fails: both end in
+    `handle_failed_connection` —, a live handle exists and the queue holds no `Disable` /
+    `Shutdown` (only requests, redundant enables and decode-level changes, which are answered /
+    ignored / applied first), the task goes from the `connect` phase straight to the gate
+    `WaitAfterFailedConnect d` where `d` is what the strategy's `after_failed_connect` returned,
+    and the strategy is advanced — it is NOT reset, whatever the reason of the failure.  Side
+    condition forced by the model: one unit of fuel per queued command plus one (`stop` supplies
+    `2·len + 8`). -/
+theorem wait_after_failed_attempt (s : S) (fuel : Nat) (hq : ∀ c ∈ s.queue, benign c = true)
+    (hh : s.handles = true) (hc : s.cur.fails = true) (hf : s.queue.length + 1 ≤ fuel) :
     advance fuel .connect s =
       ({ s with queue := [], log := s.log ++ noconnEvents s.queue,
-                retry := (Retry.afterFailedConnect s.retry).2 },
+                retry := (Retry.afterFailedConnect s.retry).2,
+                decode := decodeAfter s.decode s.queue },
         .gate (.waitFail (Retry.afterFailedConnect s.retry).1) .failFor) := by
   obtain ⟨k, rfl⟩ : ∃ k, fuel = s.queue.length + (k + 1) := ⟨fuel - s.queue.length - 1, by omega⟩
   rw [advance_benign .connect (Or.inl rfl) s.queue [] s (k + 1) hq (by simp), advance_succ]
   simp [step, hh, hc, Res.fin]
 
+/-- **wait_after_failure (refused connect)**: `wait_after_failed_attempt` for a refused connect.
+    (`benign` now also covers decode-level changes in the queue; they change `decode` only.) -/
+theorem wait_after_refused (s : S) (fuel : Nat) (hq : ∀ c ∈ s.queue, benign c = true)
+    (hh : s.handles = true) (hc : s.cur = .refuse) (hf : s.queue.length + 1 ≤ fuel) :
+    advance fuel .connect s =
+      ({ s with queue := [], log := s.log ++ noconnEvents s.queue,
+                retry := (Retry.afterFailedConnect s.retry).2,
+                decode := decodeAfter s.decode s.queue },
+        .gate (.waitFail (Retry.afterFailedConnect s.retry).1) .failFor) :=
+  wait_after_failed_attempt s fuel hq hh (by rw [hc]; rfl) hf
+
+/-- **wait_after_failure (failed TLS handshake)**: the TCP connect succeeded, the connection
+    handler failed: exactly the same wait state, delay and strategy update as a refused connect -/
+theorem wait_after_failed_handshake (s : S) (fuel : Nat) (hq : ∀ c ∈ s.queue, benign c = true)
+    (hh : s.handles = true) (hc : s.cur = .hsfail) (hf : s.queue.length + 1 ≤ fuel) :
+    advance fuel .connect s =
+      ({ s with queue := [], log := s.log ++ noconnEvents s.queue,
+                retry := (Retry.afterFailedConnect s.retry).2,
+                decode := decodeAfter s.decode s.queue },
+        .gate (.waitFail (Retry.afterFailedConnect s.retry).1) .failFor) :=
+  wait_after_failed_attempt s fuel hq hh (by rw [hc]; rfl) hf
+
 /-- the same at the level of stops: the listener sees `Connecting`, then (at the next stop)
     `WaitAfterFailedConnect d` -/
-theorem wait_after_refused_announced (s : S) (hq : s.queue = []) (hh : s.handles = true)
-    (hc : s.cur = .refuse) (acts : List Action) :
+theorem wait_after_failed_attempt_announced (s : S) (hq : s.queue = []) (hh : s.handles = true)
+    (hc : s.cur.fails = true) (acts : List Action) :
     let r1 := stop s (.gate .connecting .connect) []
     states (stop r1.1 r1.2 acts).1.log =
       states s.log ++ [.connecting, .waitFail (Retry.afterFailedConnect s.retry).1] := by
@@ -133,18 +166,32 @@ theorem wait_after_refused_announced (s : S) (hq : s.queue = []) (hh : s.handles
   rw [advance_states, (foldl_applyAction_frame acts _).1]
   simp [states]
 
-/-- **every** failed connect: whatever is queued, a refused attempt ends at the wait state
-    announced with the strategy's delay, or — only if a `Disable` resp. `Shutdown` / the loss of
-    all handles is processed first — at `Disabled` resp. `Shutdown`.  It never ends at
-    `Connected` and never blocks anywhere else. -/
-theorem refused_outcomes (fuel : Nat) (ph : Phase) (s : S)
-    (hph : ph = .connect ∨ ph = .afterDisable) (hc : s.cur = .refuse)
+theorem wait_after_refused_announced (s : S) (hq : s.queue = []) (hh : s.handles = true)
+    (hc : s.cur = .refuse) (acts : List Action) :
+    let r1 := stop s (.gate .connecting .connect) []
+    states (stop r1.1 r1.2 acts).1.log =
+      states s.log ++ [.connecting, .waitFail (Retry.afterFailedConnect s.retry).1] :=
+  wait_after_failed_attempt_announced s hq hh (by rw [hc]; rfl) acts
+
+theorem wait_after_failed_handshake_announced (s : S) (hq : s.queue = []) (hh : s.handles = true)
+    (hc : s.cur = .hsfail) (acts : List Action) :
+    let r1 := stop s (.gate .connecting .connect) []
+    states (stop r1.1 r1.2 acts).1.log =
+      states s.log ++ [.connecting, .waitFail (Retry.afterFailedConnect s.retry).1] :=
+  wait_after_failed_attempt_announced s hq hh (by rw [hc]; rfl) acts
+
+/-- **every** failed attempt (refused connect or failed handshake): whatever is queued, it ends
+    at the wait state announced with the strategy's delay, or — only if a `Disable` resp.
+    `Shutdown` / the loss of all handles is processed first — at `Disabled` resp. `Shutdown`.  It
+    never ends at `Connected` and never blocks anywhere else. -/
+theorem failed_attempt_outcomes (fuel : Nat) (ph : Phase) (s : S)
+    (hph : ph = .connect ∨ ph = .afterDisable) (hc : s.cur.fails = true)
     (hf : s.queue.length + 1 ≤ fuel) :
     (advance fuel ph s).2 = .gate (.waitFail (Retry.afterFailedConnect s.retry).1) .failFor ∨
     (advance fuel ph s).2 = .gate .disabled .waitEnabled ∨
     (advance fuel ph s).2 = .gate .shutdown .finished := by
   have aux : ∀ (fuel : Nat) (ph : Phase) (s' : S), (ph = .connect ∨ ph = .afterDisable) →
-      s'.cur = .refuse → s'.queue.length + 1 ≤ fuel → s'.retry = s.retry →
+      s'.cur.fails = true → s'.queue.length + 1 ≤ fuel → s'.retry = s.retry →
       (advance fuel ph s').2 = .gate (.waitFail (Retry.afterFailedConnect s.retry).1) .failFor ∨
       (advance fuel ph s').2 = .gate .disabled .waitEnabled ∨
       (advance fuel ph s').2 = .gate .shutdown .finished := by
@@ -165,8 +212,27 @@ theorem refused_outcomes (fuel : Nat) (ph : Phase) (s : S)
           · exact ih .afterDisable { s' with queue := q, enabled := false } (Or.inr rfl) hc hlen hr
           · simp
           · exact ih .connect ({ s' with queue := q }.emit _) (Or.inl rfl) hc hlen hr
+          · exact ih .connect { s' with queue := q, decode := _ } (Or.inl rfl) hc hlen hr
       · simp [step, Res.fin]
   exact aux fuel ph s hph hc hf rfl
+
+/-- `failed_attempt_outcomes` for a refused connect -/
+theorem refused_outcomes (fuel : Nat) (ph : Phase) (s : S)
+    (hph : ph = .connect ∨ ph = .afterDisable) (hc : s.cur = .refuse)
+    (hf : s.queue.length + 1 ≤ fuel) :
+    (advance fuel ph s).2 = .gate (.waitFail (Retry.afterFailedConnect s.retry).1) .failFor ∨
+    (advance fuel ph s).2 = .gate .disabled .waitEnabled ∨
+    (advance fuel ph s).2 = .gate .shutdown .finished :=
+  failed_attempt_outcomes fuel ph s hph (by rw [hc]; rfl) hf
+
+/-- … and for a failed TLS handshake: in particular it never ends at `Connected` -/
+theorem failed_handshake_outcomes (fuel : Nat) (ph : Phase) (s : S)
+    (hph : ph = .connect ∨ ph = .afterDisable) (hc : s.cur = .hsfail)
+    (hf : s.queue.length + 1 ≤ fuel) :
+    (advance fuel ph s).2 = .gate (.waitFail (Retry.afterFailedConnect s.retry).1) .failFor ∨
+    (advance fuel ph s).2 = .gate .disabled .waitEnabled ∨
+    (advance fuel ph s).2 = .gate .shutdown .finished :=
+  failed_attempt_outcomes fuel ph s hph (by rw [hc]; rfl) hf
 
 /-- **wait_after_failure (lost connection)**: with a peer that closes the connection or sends
     garbage, the state announced next after `Connected` is `WaitAfterDisconnect` with the
@@ -234,13 +300,15 @@ theorem disable_noop_when_disabled (s : S) (q : List Cmd) (hq : s.queue = .disab
     advance (fuel + 1) .waitEnabled s = advance fuel .waitEnabled { s with queue := q } := by
   simp [advance_succ, step, hq, he, Res.fin]
 
-/-- a `Disable` behind requests / redundant enables while not connected: those are answered
-    (noconn) / ignored, then `Disabled` is announced; nothing else happens in between -/
+/-- a `Disable` behind requests / redundant enables / decode-level changes while not connected:
+    those are answered (noconn) / ignored / applied, then `Disabled` is announced; nothing else
+    happens in between -/
 theorem disable_after_requests (ph : Phase) (hph : ph = .connect ∨ ph = .failFor) (s : S)
     (pre q : List Cmd) (hpre : ∀ c ∈ pre, benign c = true) (hq : s.queue = pre ++ .disable :: q)
     (fuel : Nat) (hf : pre.length + 2 ≤ fuel) :
     advance fuel ph s =
-      ({ s with queue := q, enabled := false, log := s.log ++ noconnEvents pre },
+      ({ s with queue := q, enabled := false, log := s.log ++ noconnEvents pre,
+                decode := decodeAfter s.decode pre },
         .gate .disabled .waitEnabled) := by
   obtain ⟨k, rfl⟩ : ∃ k, fuel = pre.length + (k + 2) := ⟨fuel - pre.length - 2, by omega⟩
   rw [advance_benign ph hph pre (.disable :: q) s (k + 2) hpre hq]
@@ -345,16 +413,19 @@ theorem fail_fast_requests_only (ph : Phase) (s : S) (ids : List Nat)
   rcases hph with ⟨rfl, he⟩ | rfl | rfl
   · rw [advance_inert (ids.map Cmd.request) [] s (k + 2) (by simp [inert]) he (by simp [hq])]
     have := key .waitEnabled { s with queue := [], log := s.log ++ noconnEvents (ids.map Cmd.request) } rfl rfl
+    rw [decodeAfter_requests]
     rw [hne] at this ⊢
     exact this
   · rw [advance_benign .connect (Or.inl rfl) (ids.map Cmd.request) [] s (k + 2)
       (by simp [benign]) (by simp [hq])]
     have := key .connect { s with queue := [], log := s.log ++ noconnEvents (ids.map Cmd.request) } rfl rfl
+    rw [decodeAfter_requests]
     rw [hne] at this ⊢
     exact this
   · rw [advance_benign .failFor (Or.inr rfl) (ids.map Cmd.request) [] s (k + 2)
       (by simp [benign]) (by simp [hq])]
     have := key .failFor { s with queue := [], log := s.log ++ noconnEvents (ids.map Cmd.request) } rfl rfl
+    rw [decodeAfter_requests]
     rw [hne] at this ⊢
     exact this
 
@@ -458,22 +529,28 @@ theorem exactly_once (s0 : S) (h0 : Initial s0) (script : List (List Action)) (i
 
 /-! ## 7. C14 at the task level -/
 
-/-- **announced_delays_follow_strategy**: the peer refuses `k` times and then behaves as
-    `b ≠ refuse`; the user enables the channel and does nothing else.  Then the listener sees
-    `Disabled`, then `Connecting, WaitAfterFailedConnect (min (mn·2^i) mx)` for `i = 0..k-1`, then
-    `Connecting, Connected`; and after `Connected` the strategy is back in its initial state, so
-    the next failure sequence restarts at `min mn mx` (`restart_after_success`).
+/-- **announced_delays_follow_strategy** (general form): the first `fs.length` attempts fail —
+    each one either a refused connect or (TLS) a connect that succeeds followed by a failed
+    handshake, in any order — and then the peer behaves as `b`, an attempt that succeeds; the
+    user enables the channel and does nothing else.  Then the listener sees `Disabled`, then
+    `Connecting, WaitAfterFailedConnect (min (mn·2^i) mx)` for `i = 0..k-1`, then
+    `Connecting, Connected`: a TCP connect that succeeds does NOT restart the sequence, only a
+    fully established connection does; and after `Connected` the strategy is back in its initial
+    state, so the next failure sequence restarts at `min mn mx` (`restart_after_success`).
     `mx ≤ DURATION_MAX`: the cap is a representable `Duration`. -/
-theorem announced_delays_follow_strategy (mn mx : Nat) (hmx : mx ≤ Retry.DURATION_MAX)
-    (k : Nat) (b : Behaviour) (hb : b ≠ .refuse) (s0 : S) (h0 : Initial s0)
-    (hr : s0.retry = Retry.create mn mx)
-    (hbs : s0.behaviours = List.replicate k .refuse ++ [b]) :
-    states (run s0 ([.enable] :: List.replicate (2 * k + 2) [])).1.log =
+theorem announced_delays_follow_strategy_failures (mn mx : Nat) (hmx : mx ≤ Retry.DURATION_MAX)
+    (fs : List Behaviour) (hfs : ∀ x ∈ fs, x.fails = true) (b : Behaviour) (hb : b.fails = false)
+    (s0 : S) (h0 : Initial s0) (hr : s0.retry = Retry.create mn mx)
+    (hbs : s0.behaviours = fs ++ [b]) :
+    states (run s0 ([.enable] :: List.replicate (2 * fs.length + 2) [])).1.log =
       .disabled ::
-        ((List.range k).flatMap fun i => [.connecting, .waitFail (Nat.min (mn * 2 ^ i) mx)]) ++
+        ((List.range fs.length).flatMap
+          fun i => [.connecting, .waitFail (Nat.min (mn * 2 ^ i) mx)]) ++
         [.connecting, .connected] ∧
-    (run s0 ([.enable] :: List.replicate (2 * k + 2) [])).1.retry = Retry.create mn mx := by
+    (run s0 ([.enable] :: List.replicate (2 * fs.length + 2) [])).1.retry =
+      Retry.create mn mx := by
   obtain ⟨he, hq, hh, hl, _, _⟩ := h0
+  generalize hk : fs.length = k
   have h2 : 2 * k + 2 = (2 * k + 1) + 1 := by omega
   have hsplit : List.replicate (2 * k + 2) ([] : List Action) =
       List.replicate (2 * k + 1) [] ++ [[]] := by
@@ -486,8 +563,9 @@ theorem announced_delays_follow_strategy (mn mx : Nat) (hmx : mx ≤ Retry.DURAT
         { s0 with log := [.gate .disabled, .act .enable], enabled := true } := by
     simp [start, stop, applyAction, hh, hq, hl, fuelFor, advance_succ, step, he, Res.fin, S.emit]
   rw [h1]
-  have hloop := reconnect_loop b hb k
-    { s0 with log := [.gate .disabled, .act .enable], enabled := true } 8 rfl hq hh hbs
+  have hloop := reconnect_loop_fails b hb fs
+    { s0 with log := [.gate .disabled, .act .enable], enabled := true } 8 rfl hq hh hfs hbs
+  rw [hk] at hloop
   simp only [Nat.reduceAdd] at hloop
   obtain ⟨hp, hs, hret⟩ := hloop
   generalize runStops
@@ -510,6 +588,43 @@ theorem announced_delays_follow_strategy (mn mx : Nat) (hmx : mx ≤ Retry.DURAT
     have := retryAfter_min_max k (Retry.create mn mx)
     simp only [Retry.reset, this.1, this.2]
     rfl
+
+/-- **announced_delays_follow_strategy**: the peer refuses `k` times and then behaves as `b`, an
+    attempt that does not fail (`b ≠ refuse`, and — the behaviour type has grown — `b ≠ hsfail`);
+    the user enables the channel and does nothing else.  Then the listener sees `Disabled`, then
+    `Connecting, WaitAfterFailedConnect (min (mn·2^i) mx)` for `i = 0..k-1`, then
+    `Connecting, Connected`; and after `Connected` the strategy is back in its initial state, so
+    the next failure sequence restarts at `min mn mx` (`restart_after_success`).
+    `mx ≤ DURATION_MAX`: the cap is a representable `Duration`. -/
+theorem announced_delays_follow_strategy (mn mx : Nat) (hmx : mx ≤ Retry.DURATION_MAX)
+    (k : Nat) (b : Behaviour) (hb : b ≠ .refuse) (hb' : b ≠ .hsfail) (s0 : S) (h0 : Initial s0)
+    (hr : s0.retry = Retry.create mn mx)
+    (hbs : s0.behaviours = List.replicate k .refuse ++ [b]) :
+    states (run s0 ([.enable] :: List.replicate (2 * k + 2) [])).1.log =
+      .disabled ::
+        ((List.range k).flatMap fun i => [.connecting, .waitFail (Nat.min (mn * 2 ^ i) mx)]) ++
+        [.connecting, .connected] ∧
+    (run s0 ([.enable] :: List.replicate (2 * k + 2) [])).1.retry = Retry.create mn mx := by
+  have hbf : b.fails = false := by cases b <;> simp_all
+  have := announced_delays_follow_strategy_failures mn mx hmx (List.replicate k .refuse)
+    (fun x hx => by rw [List.eq_of_mem_replicate hx]; rfl) b hbf s0 h0 hr hbs
+  simpa using this
+
+/-- **announced_delays_follow_strategy (TLS)**: the TCP connect succeeds `k` times in a row but
+    the handshake fails each time, then an attempt succeeds: the announced delays double exactly
+    as for refused connects — a reachable host whose handshake keeps failing is backed off from. -/
+theorem announced_delays_follow_strategy_tls (mn mx : Nat) (hmx : mx ≤ Retry.DURATION_MAX)
+    (k : Nat) (b : Behaviour) (hb : b.fails = false) (s0 : S) (h0 : Initial s0)
+    (hr : s0.retry = Retry.create mn mx)
+    (hbs : s0.behaviours = List.replicate k .hsfail ++ [b]) :
+    states (run s0 ([.enable] :: List.replicate (2 * k + 2) [])).1.log =
+      .disabled ::
+        ((List.range k).flatMap fun i => [.connecting, .waitFail (Nat.min (mn * 2 ^ i) mx)]) ++
+        [.connecting, .connected] ∧
+    (run s0 ([.enable] :: List.replicate (2 * k + 2) [])).1.retry = Retry.create mn mx := by
+  have := announced_delays_follow_strategy_failures mn mx hmx (List.replicate k .hsfail)
+    (fun x hx => by rw [List.eq_of_mem_replicate hx]; rfl) b hb s0 h0 hr hbs
+  simpa using this
 
 /-- **reset on success**: from the announcement of `Connected` on, whatever happens in the
     session, the strategy is in its reset state when the task blocks next. -/
@@ -599,6 +714,112 @@ theorem wait_is_waited (s : S) (he : s.enabled = true) (fuel : Nat)
       | false => exact Or.inr (Or.inr ((hben hb).2 hh))
     · exact Or.inr (hsplit pre c rest hq hpre hcc)
 
+/-! ## 8. `set_decode_level` changes the decode level and nothing else -/
+
+/-- **decode_changes_only_decode**: in every phase in which the task reads its command queue
+    (`wait_for_enabled` while disabled, `connect`, `fail_requests_for`, a session with a serving
+    or silent peer), a `DecodeLevel` setting at the head of the queue is consumed, the decode
+    level is set, and the task carries on IN THE SAME PHASE exactly as if the command had not
+    been there: nothing is announced, nothing is logged, the enabled flag is untouched. -/
+theorem decode_changes_only_decode (ph : Phase)
+    (hph : ph = .waitEnabled ∨ ph = .connect ∨ ph = .failFor ∨ ph = .session .serve ∨
+      ph = .session .silent)
+    (s : S) (l : Nat) (q : List Cmd) (hq : s.queue = .decode l :: q)
+    (he : ph = .waitEnabled → s.enabled = false) (fuel : Nat) :
+    advance (fuel + 1) ph s = advance fuel ph { s with queue := q, decode := l } := by
+  rcases hph with rfl | rfl | rfl | rfl | rfl
+  · simp [advance_succ, step, hq, he rfl, Res.fin]
+  all_goals simp [advance_succ, step, hq, Res.fin]
+
+/-- a stop of `set_decode_level` calls only: what the environment does to the state -/
+theorem foldl_setDecode (lvls : List Nat) (s : S) (hh : s.handles = true) :
+    (lvls.map Action.setDecode).foldl applyAction s =
+      { s with queue := s.queue ++ lvls.map Cmd.decode,
+               log := s.log ++ lvls.map (fun l => Ev.act (.setDecode l)) } := by
+  induction lvls generalizing s with
+  | nil => simp
+  | cons l lvls ih =>
+    simp only [List.map_cons, List.foldl_cons]
+    have h1 : applyAction s (.setDecode l) =
+        { s with queue := s.queue ++ [.decode l], log := s.log ++ [.act (.setDecode l)] } := by
+      simp [applyAction, hh, S.emit]
+    have h2 := ih { s with queue := s.queue ++ [.decode l],
+                           log := s.log ++ [.act (.setDecode l)] } hh
+    rw [h1, h2]
+    simp [List.append_assoc]
+
+/-- **decode_level_never_dials**: the channel is disabled and the task is blocked at the
+    `Disabled` gate or idle in `wait_for_enabled`, with nothing but requests, redundant disables
+    and decode-level changes queued.  Then any number of `set_decode_level` calls leaves it idle
+    in `wait_for_enabled`: still disabled, no `Connecting` (nothing at all) is announced, the
+    queue is drained, and the decode level is the last one set. -/
+theorem decode_level_never_dials (s : S) (pos : Pos)
+    (hpos : pos = .idle .waitEnabled ∨ pos = .gate .disabled .waitEnabled)
+    (he : s.enabled = false) (hh : s.handles = true) (hq : ∀ c ∈ s.queue, inert c = true)
+    (lvls : List Nat) :
+    (stop s pos (lvls.map .setDecode)).2 = .idle .waitEnabled ∧
+    (stop s pos (lvls.map .setDecode)).1.enabled = false ∧
+    (stop s pos (lvls.map .setDecode)).1.queue = [] ∧
+    (stop s pos (lvls.map .setDecode)).1.decode =
+      decodeAfter s.decode (s.queue ++ lvls.map Cmd.decode) ∧
+    states (stop s pos (lvls.map .setDecode)).1.log =
+      states s.log ++ (if pos = .idle .waitEnabled then [] else [.disabled]) := by
+  have key : ∀ (s1 : S), s1.enabled = false → s1.handles = true → s1.queue = s.queue →
+      s1.decode = s.decode →
+      (advance (fuelFor ((lvls.map Action.setDecode).foldl applyAction s1)) .waitEnabled
+        ((lvls.map Action.setDecode).foldl applyAction s1)).2 = .idle .waitEnabled ∧
+      (advance (fuelFor ((lvls.map Action.setDecode).foldl applyAction s1)) .waitEnabled
+        ((lvls.map Action.setDecode).foldl applyAction s1)).1.enabled = false ∧
+      (advance (fuelFor ((lvls.map Action.setDecode).foldl applyAction s1)) .waitEnabled
+        ((lvls.map Action.setDecode).foldl applyAction s1)).1.queue = [] ∧
+      (advance (fuelFor ((lvls.map Action.setDecode).foldl applyAction s1)) .waitEnabled
+        ((lvls.map Action.setDecode).foldl applyAction s1)).1.decode =
+          decodeAfter s.decode (s.queue ++ lvls.map Cmd.decode) ∧
+      states (advance (fuelFor ((lvls.map Action.setDecode).foldl applyAction s1)) .waitEnabled
+        ((lvls.map Action.setDecode).foldl applyAction s1)).1.log = states s1.log := by
+    intro s1 he1 hh1 hq1 hd1
+    rw [foldl_setDecode lvls s1 hh1]
+    generalize hX : ({ s1 with queue := s1.queue ++ lvls.map Cmd.decode,
+                               log := s1.log ++ lvls.map (fun l => Ev.act (.setDecode l)) } : S) = X
+    have hXq : X.queue = s.queue ++ lvls.map Cmd.decode := by rw [← hX, ← hq1]
+    have hXe : X.enabled = false := by rw [← hX]; exact he1
+    have hXh : X.handles = true := by rw [← hX]; exact hh1
+    have hXd : X.decode = s.decode := by rw [← hX]; exact hd1
+    have hXl : states X.log = states s1.log := by
+      rw [← hX]
+      simp only [states_append]
+      have : states (lvls.map (fun l => Ev.act (.setDecode l))) = [] := by
+        induction lvls with
+        | nil => rfl
+        | cons l lvls ih => simpa [states] using ih
+      rw [this, List.append_nil]
+    have hin : ∀ c ∈ X.queue, inert c = true := by
+      intro c hc
+      rw [hXq] at hc
+      rcases List.mem_append.1 hc with h | h
+      · exact hq c h
+      · obtain ⟨l, _, rfl⟩ := List.mem_map.1 h
+        rfl
+    have hfuel : fuelFor X = X.queue.length + (X.queue.length + 7 + 1) := by
+      simp only [fuelFor]; omega
+    rw [hfuel, advance_inert X.queue [] X (X.queue.length + 7 + 1) hin hXe (by simp), advance_succ]
+    simp only [step, hXe, hXh, Res.fin, Bool.false_eq_true, ↓reduceIte, hXd, hXq]
+    refine ⟨trivial, trivial, trivial, trivial, ?_⟩
+    rw [← hXl]
+    have : states (noconnEvents (s.queue ++ lvls.map Cmd.decode)) = [] := by
+      generalize s.queue ++ lvls.map Cmd.decode = q
+      induction q with
+      | nil => rfl
+      | cons c q ih => cases c <;> simpa [states] using ih
+    simp [this]
+  rcases hpos with rfl | rfl
+  · simp only [stop, ↓reduceIte, List.append_nil]
+    have := key (s.emit .idle) he hh rfl rfl
+    simpa using this
+  · simp only [stop]
+    have := key (s.emit (.gate .disabled)) he hh rfl rfl
+    simpa using this
+
 /-! ## non-vacuity and the two reference scenarios -/
 
 /-- an `Initial` state exists, for every strategy / behaviours / limit -/
@@ -663,5 +884,36 @@ example :
       [.gate .disabled, .act .enable, .gate .connecting, .gate .connected, .idle,
        .act (.request 1), .act .dropAll, .done 1 "ok.4660", .gate .shutdown] := by
   decide
+
+/-- `decode_level_never_dials` / `no_attempt_while_disabled` instantiated (harness:
+    `g:Disabled;a:L2;idle;a:L1;a:R1;done:R1:noconn;idle;a:E;g:Connecting;g:Connected`, stops `L2,L1+R,E`): decode
+    levels set before the channel is enabled announce nothing; the channel dials only after the
+    enable. -/
+example :
+    (run { retry := Retry.create 30 120, behaviours := [.serve] }
+      [[.setDecode 2], [.setDecode 1, .request 1], [.enable], [], []]).1.log =
+    [.gate .disabled, .act (.setDecode 2), .idle, .act (.setDecode 1), .act (.request 1),
+     .done 1 "noconn", .idle, .act .enable, .gate .connecting, .gate .connected] ∧
+    (run { retry := Retry.create 30 120, behaviours := [.serve] }
+      [[.setDecode 2], [.setDecode 1, .request 1], [.enable], [], []]).1.decode = 1 := by decide
+
+/-- … and after a disable: the decode level set while the channel is disabled again does not
+    re-open the connection -/
+example :
+    states (run { retry := Retry.create 30 120, behaviours := [.serve] }
+      [[.enable], [], [], [.disable], [.setDecode 3], [.setDecode 0], []]).1.log =
+    [.disabled, .connecting, .connected, .disabled] := by decide
+
+/-- `announced_delays_follow_strategy_failures` instantiated with a TLS peer (harness:
+    `tls:hsclose/refuse/hsgarbage/close/hsclose/hsclose/serve`, 10 ms / 80 ms): handshake fails,
+    connect refused, handshake fails — 10, 20, 40 —, then the handshake succeeds and the
+    connection is lost (`WaitAfterDisconnect 10`), and the next failures restart at 10. -/
+example :
+    states (run { retry := Retry.create 10 80,
+                  behaviours := [.hsfail, .refuse, .hsfail, .close, .hsfail, .hsfail, .serve] }
+      ([.enable] :: List.replicate 15 [])).1.log =
+    [.disabled, .connecting, .waitFail 10, .connecting, .waitFail 20, .connecting, .waitFail 40,
+     .connecting, .connected, .waitDisc 10, .connecting, .waitFail 10, .connecting, .waitFail 20,
+     .connecting, .connected] := by decide
 
 end Rodbus.C13
